@@ -82,7 +82,7 @@ def check_raw_reads(ctx):
                 continue
             n += 1
             gs = all_geos(e['value'])
-            ok = bool(gs) and all(is_frac(g) and g[1] in ('W', 'C') for g in gs)
+            ok = (bool(gs) and all(is_frac(g) and g[1] in ('W', 'C') for g in gs)) if gs else None  # unknown kind: undecided
             ctx.ob('R3', e['where'], e['node'], ok,
                    'raw storage of a freshly built position-mode trajectory (wrapped positions)' if ok else
                    'raw .coords read outside the accessors: its meaning depends on the current storage mode '
